@@ -9,9 +9,9 @@ RULE = ("every acyclic ADMG(n) and ancestral graph with undirected edges ANC(n) 
         "disjoint (X,Y,Z) with |X|,|Y|<=2 for the criterion (20 sampled for random graphs); plain DAGs also against "
         "networkx.moral_graph; distinct by (canonical graph, layers present); non-trivial = the moral graph has an edge that is "
         "not an edge of the input skeleton")
-EXHAUSTIVE = {"quick": "all ADMG(n), ANC(n) n<=3", "thorough": "all ADMG(n), ANC(n) n<=4"}
+EXHAUSTIVE = {"quick": "all ADMG(n), ANC(n) n<=3, DAG(4), bidirected-only and undirected-only graphs on 4 nodes; all layer-absent variants", "thorough": "all ADMG(n), ANC(n) n<=4; all layer-absent variants"}
 TRUSTED = ["networkx compose / connected_components / predecessors taken at face value"]
-SPOT_N = 10
+SPOT_N = 25
 ASSUMPTIONS = ["default edge-type names", "int node labels (label families are C15's job)"]
 
 
@@ -176,8 +176,17 @@ def classify(case, impl, model):
         im = {tuple(e) for e in impl["edges"]}
         mo = {tuple(e) for e in model["edges"]}
         if im < mo:
-            # every missing edge joins two parents of one district?
-            return "moral:missing-parent-parent-edge"
+            # every missing edge joins two parents of one district (the defect fixed by f7202d6)
+            g = case["g"]
+            comp = {v: {v} for v in g["V"]}
+            for a, b in g["B"]:
+                if comp[a] is not comp[b]:
+                    comp[a] |= comp[b]
+                    for v in list(comp[a]):
+                        comp[v] = comp[a]
+            pa = lambda Dc: {a for a, b in g["D"] if b in Dc}  # noqa: E731
+            if all(any(a in pa(comp[v]) and b in pa(comp[v]) for v in g["V"]) for a, b in mo - im):
+                return "moral:missing-parent-parent-edge"
     return None
 
 
